@@ -171,8 +171,9 @@ func (s *V2Session) buildAndSend(ctx context.Context, c ipmi.Command) error {
 
 		// TODO handle AuthenticationAlgorithmNone properly
 		// TODO handle ConfidentialityAlgorithmNone properly
-		s.AuthenticatedSequenceNumbers.Inbound++
-		s.v2SessionLayer.Sequence = s.AuthenticatedSequenceNumbers.Inbound
+		// a sequence number is only used up once there is a packet to send: if
+		// the request cannot be serialised, the next packet must not leave a gap
+		s.v2SessionLayer.Sequence = s.AuthenticatedSequenceNumbers.Inbound + 1
 		if err := gopacket.SerializeLayers(s.buffer, serializeOptions,
 			&s.rmcpLayer,
 			// session selector only used when decoding
@@ -184,6 +185,7 @@ func (s *V2Session) buildAndSend(ctx context.Context, c ipmi.Command) error {
 			terminalErr = err
 			return nil
 		}
+		s.AuthenticatedSequenceNumbers.Inbound++
 		requestCtx, cancel := context.WithTimeout(ctx, s.timeout)
 		response, err := s.transport.Send(requestCtx, s.buffer.Bytes())
 		cancel()
